@@ -465,7 +465,10 @@ func genC18(g *Gen, tier string, idx int) *wire.Scenario {
 				}
 				x.K = append(x.K, tok(seq, cmd))
 				if cmd == "quoted-insert" {
-					x.K = append(x.K, tok(string(Pick(g, []rune("a\x01\x09;"))), "arg-key"))
+					x.K = append(x.K, tok(string(Pick(g, []rune("a\x01\x09;\x1b\x1b"))), "arg-key"))
+					if g.P(60) {
+						x.K = append(x.K, tok(string(Pick(g, []rune("xyb"))), "self-insert"))
+					}
 				}
 			}
 		}
@@ -535,6 +538,20 @@ func execC18(x *Ctx, sc *wire.Scenario) *wire.Result {
 		cls := "text"
 		if fa.Line == fb.Line {
 			cls = "cursor"
+		}
+		feat := map[string]bool{}
+		for _, t := range xx.K {
+			switch {
+			case t.Cmd == "arg-key" && string(t.B) == "\x1b":
+				feat["esc-as-argument-key"] = true
+			case t.Cmd == "arg-key":
+				feat["argument-key"] = true
+			case t.Cmd == "digit-argument" || t.Cmd == "vi-arg-digit":
+				feat["numeric-argument"] = true
+			}
+		}
+		for _, f := range sortedKeys(feat) {
+			cls += ":" + f
 		}
 		for i, t := range xx.K {
 			if xx.Vi && string(t.B) == "\x1b" && i < len(xx.K)-1 {
